@@ -342,6 +342,34 @@ func CheckC09(r *core.Run) {
 	}
 	r.Explore(core.TLCOpts{Module: "MC_Lock", Config: cfg, Timeout: 20 * time.Minute, HeapMB: 8192, Coverage: r.Thorough()})
 
+	// 1b. inductive invariant (Apalache): the safety properties for any number of transactions
+	indDone := make(chan struct{})
+	indMsg := ""
+	go func() {
+		defer close(indDone)
+		for _, ob := range [][]string{
+			{"--cinit=ConstInit", "--init=Init", "--inv=IndInv", "--length=0"},
+			{"--cinit=ConstInit", "--init=IndInit", "--inv=IndInv", "--length=1"},
+		} {
+			ok, out, err := core.RunApalache(r.Scratch, "LockInd", ob, 15*time.Minute)
+			if err != nil || !ok {
+				lines := strings.Split(strings.TrimSpace(out), "\n")
+				if len(lines) > 12 {
+					lines = lines[len(lines)-12:]
+				}
+				r.Break("Apalache did not discharge %v of LockInd.tla: %v\n%s", ob, err, strings.Join(lines, "\n"))
+				return
+			}
+		}
+		indMsg = "Init => IndInv and IndInv /\\ Next => IndInv' discharged by Apalache (3 readers, 2 writers, closer; any number of transactions)"
+	}()
+	defer func() {
+		<-indDone
+		if indMsg != "" {
+			r.SetExtra("inductive_invariant_LockInd", indMsg)
+		}
+	}()
+
 	// 2. generator: all transitions of the replay graph
 	rcfg := "LockReplay_q.cfg"
 	if r.Thorough() {
@@ -359,10 +387,10 @@ func CheckC09(r *core.Run) {
 		}
 	}
 	gen.Cleanup()
-	r.Extra["replay_transitions"] = len(paths)
-	r.Extra["replay_graph_states"] = gen.Distinct
+	r.SetExtra("replay_transitions", len(paths))
+	r.SetExtra("replay_graph_states", gen.Distinct)
 	max := maximalPaths(paths)
-	r.Extra["replay_maximal_paths"] = len(max)
+	r.SetExtra("replay_maximal_paths", len(max))
 	for _, p := range max {
 		r.AddDistinct(p)
 	}
@@ -529,7 +557,7 @@ func openTimeLockTraces(r *core.Run) []*core.Trace {
 				"sh": int(sh), "pe": pe, "res": res})
 		}
 		tr.Events = append([]core.Event{}, tr.Events...)
-		r.Extra["open_time_"+c.name+"_internal_tx"] = nTx
+		r.SetExtra("open_time_"+c.name+"_internal_tx", nTx)
 		proc.Stop()
 		out = append(out, tr)
 	}
